@@ -109,12 +109,6 @@ typename dis_interval<Number>::list_intervals_t dis_interval<Number>::normalize(
   for (unsigned int i = 0; i < l.size(); ++i) {
     ikos::interval<Number> intv = l[i];
 
-    if (prev == intv) {
-      CRAB_LOG("disint", crab::outs() << "-- Normalize: duplicate"
-                                      << "\n");
-      continue;
-    }
-
     if (intv.is_bottom()) {
       CRAB_LOG("disint", crab::outs() << "-- Normalize: bottom interval"
                                       << "\n");
@@ -122,11 +116,19 @@ typename dis_interval<Number>::list_intervals_t dis_interval<Number>::normalize(
       continue;
     }
 
+    // This must be checked before looking for duplicates because prev
+    // is initially top.
     if (intv.is_top()) {
       CRAB_LOG("disint", crab::outs() << "-- Normalize: top interval"
                                       << "\n");
       is_bottom = false;
       return typename dis_interval<Number>::list_intervals_t();
+    }
+
+    if (prev == intv) {
+      CRAB_LOG("disint", crab::outs() << "-- Normalize: duplicate"
+                                      << "\n");
+      continue;
     }
 
     if (!prev.is_top()) {
